@@ -18,6 +18,9 @@ Decided from the source, for all operand counts n in N (interval arithmetic):
   K4  the unbracketed operand becomes a one-element vector holding the operand
       itself, only under the unary-acceptance edge; the bracketed form is the
       array's elements in order; both meet at the same length check.
+  K7  at evaluation time each of the three operation evaluators runs its operator
+      at exactly one site and hands it the operand list itself (never the inside
+      of an operand's value): {op: x} stays {op: [x]} after parsing too;
 """
 import json, os
 from .core import (callee_path, callee_of, strip_refs, strip_payload, edge_dominates,
@@ -44,6 +47,10 @@ def _cmp_of_call(path):
 FLIP = {"Eq": "Eq", "Ne": "Ne", "Ge": "Le", "Gt": "Lt", "Le": "Ge", "Lt": "Gt"}
 
 
+class NarrowedLength(Exception):
+    """The operand count is converted to a narrower integer type before it is compared."""
+
+
 def predicate(body, blocks, len_arg, self_arg, variant):
     """Normalise the bool returned on `blocks` to (op, rhs) over LEN, where rhs is
     ('const', n) | ('payload', i) | ('range',) — or ('true',)/('false',)."""
@@ -54,6 +61,11 @@ def predicate(body, blocks, len_arg, self_arg, variant):
         x = strip_refs(x)
         if x == ("arg", len_arg):
             return ("LEN",)
+        if x[0] == "cast" and strip_refs(x[2]) == ("arg", len_arg):
+            to = x[3] if len(x) > 3 else "?"
+            if to in ("usize", "u64", "u128", "i128"):
+                return ("LEN",)
+            raise NarrowedLength(to)
         if x[0] == "const" and isinstance(const_value(x[1]), int) and not isinstance(const_value(x[1]), bool):
             return ("const", const_value(x[1]))
         if x[0] == "field" and x[1][0] == "downcast" and x[1][2] == variant and strip_refs(x[1][1]) == ("arg", self_arg):
@@ -202,7 +214,12 @@ def run(ctx):
         entries = T.all_entries(tables)
         ctx.floor("table entries (%s)" % cfg, len(entries), 35)
         # ---- K1: descriptor semantics → accepted sets vs documentation
-        vpred = variant_predicates(facts, roles["valid"][0], adt, True)
+        try:
+            vpred = variant_predicates(facts, roles["valid"][0], adt, True)
+        except NarrowedLength as nl:
+            vb = facts.body(roles["valid"][0])
+            ctx.fail("K1.length-narrowed", "length predicate (%s)" % cfg, "the operand count is converted to %s before it is compared with the descriptor: counts are checked modulo 2^bits, so surplus operands are accepted and valid long lists rejected" % nl, where=vb.where(), fn=vb.key)
+            continue
         upred = variant_predicates(facts, roles["unary"][0], adt, False)
         ctx.floor("descriptor variants (%s)" % cfg, len(vpred), 6)
         for e in entries:
@@ -307,9 +324,26 @@ def run(ctx):
         arr = switch_edges_for_variant(b, obi, "Array")
         ctx.need(arr and arr[1], "no exact Array edge on the operand")
         # definitions of the operand vector
-        vec_local = vec_of_len[1] if vec_of_len and vec_of_len[0] in ("phi",) else None
-        ctx.need(vec_local is not None, "operand vector is not a two-way join (bracketed / unbracketed forms)")
-        defs = b.defs()[vec_local]
+        defs = None
+        if vec_of_len and vec_of_len[0] == "phi":
+            defs = list(b.defs()[vec_of_len[1]])
+        elif vec_of_len and vec_of_len[0] == "field" and strip_refs(vec_of_len[1])[0] == "phi":
+            # the vector travels as one field of a tuple joined over the two forms: `let (args, flag) = match …`
+            tl, idx = strip_refs(vec_of_len[1])[1], vec_of_len[2]
+            defs = []
+            for d in b.defs()[tl]:
+                inner = None
+                if d[0] == "stmt" and d[3]["k"] == "Aggregate" and len(d[3]["ops"]) > idx:
+                    o = d[3]["ops"][idx]
+                    if o["k"] in ("Copy", "Move") and not o["place"]["proj"]:
+                        dd = b.defs().get(o["place"]["local"], [])
+                        if len(dd) == 1:
+                            inner = dd[0]
+                if inner is None:
+                    defs = None
+                    break
+                defs.append(inner)
+        ctx.need(defs is not None, "operand vector is not a two-way join (bracketed / unbracketed forms)")
         ubi = roles["unary"][1]
         usw = [bi for bi in b.reachable() if b.blocks[bi]["term"]["k"] == "SwitchInt" and strip_refs(b.trace(b.blocks[bi]["term"]["discr"]))[0] == "call" and strip_refs(b.trace(b.blocks[bi]["term"]["discr"]))[1].get("key") == roles["unary"][0]]
         ctx.need(len(usw) == 1, "dispatcher does not branch exactly once on unary acceptance")
@@ -355,6 +389,12 @@ def run(ctx):
             rr = cb2.trace(0) if cb2 else ("?",)
             is_err = rr[0] == "agg" and rr[1].get("variant") == "Err"
         k5_error_discipline(ctx, facts, disp, cfg)
+        # K7: at evaluation time the operator receives the very list that was formed and counted here
+        from .roles import Roles as _Roles
+        from .c04 import operator_receives_operand_list
+        _r = _Roles(facts)
+        for _t in _r.tables:
+            operator_receives_operand_list(ctx, facts, _r, _t, cfg, "K7")
         k6_only_through_the_tables(ctx, facts, tables, cfg)
         ctx.check(is_err, "K4.reject", "non-array operand of a non-unary operator is an error (%s)" % cfg,
                   "the rejection edge returns %s" % show_expr(r), where=b.where(usw[0]), fn=b.key)
